@@ -45,6 +45,8 @@ def table : List Entry :=
     ⟨localtxsubmission_server, localTxSubmission, idRel [1, 2, 3]⟩,
     ⟨localtxmonitor_client, localTxMonitor, relLtm⟩,
     ⟨localtxmonitor_server, localTxMonitor, relLtm⟩,
+    ⟨localtxmonitor_v20_client, localTxMonitorV20, relLtm⟩,
+    ⟨localtxmonitor_v20_server, localTxMonitorV20, relLtm⟩,
     ⟨localstatequery_client, localStateQuery, idRel [1, 2, 3, 4, 5]⟩,
     ⟨localstatequery_server, localStateQuery, idRel [1, 2, 3, 4, 5]⟩,
     ⟨messagesubmission_v1_client, messageSubmissionV1, idRel [1, 2, 3, 4, 5, 6]⟩,
@@ -73,6 +75,15 @@ def conforms (e : Entry) : Bool :=
   e.impl.sampleOk.all id && e.impl.sampleOk.length == e.impl.alphabet.length &&
   e.impl.trans.all (fun t => e.impl.decodable.contains t.sym.msg) &&
   e.spec.alphabet.all e.impl.alphabet.contains
+
+/-- recorded finding (known/C16.json, class `ltm-getmeasures-missing`): the local-tx-monitor of
+    NodeToClientV_20+ has MsgGetMeasures / MsgReplyGetMeasures; the implementation, which
+    negotiates versions up to 21, has no such messages. -/
+def isV20 (e : Entry) : Bool :=
+  e.impl.name == "localtxmonitor-v20/client" || e.impl.name == "localtxmonitor-v20/server"
+
+/-- the entries outside the recorded finding -/
+def tableOk : List Entry := table.filter (fun e => !isV20 e)
 
 def find (name : String) : Option Entry := table.find? (fun e => e.impl.name = name)
 
